@@ -1397,10 +1397,11 @@ def _c11_worker(args):
     ctl_out_calls = outside_calls(ctl_trace, root, wd)
     ctl_reps, _ = parse_replies(ctl["out"])
     ctl_tree = {k: v for k, v in walk_root(root).items()}
+    ctl_dirs = tree_dirs(root)
     warmup = c11_warmup(b3)
     sent, root, home = fresh()
     ctlw = session(root, cbor.MAGIC + cbor.req_hello() + b"".join(warmup) + b"".join(tail), base_env(home), trace=ctl_trace + "w")
-    ctls = {0: (ctl_out_calls, ctl_reps, ctl_tree), len(warmup): (outside_calls(ctl_trace + "w", root, wd), parse_replies(ctlw["out"])[0], {k: v for k, v in walk_root(root).items()})}
+    ctls = {0: (ctl_out_calls, ctl_reps, ctl_tree, ctl_dirs), len(warmup): (outside_calls(ctl_trace + "w", root, wd), parse_replies(ctlw["out"])[0], {k: v for k, v in walk_root(root).items()}, tree_dirs(root))}
     for idx in range(lo, hi):
         rng = SplitMix.derive(seedv, "c11", idx)
         path = gen_probe(rng, (idx * exhaustive) % 4116 if exhaustive else None)
@@ -1410,7 +1411,7 @@ def _c11_worker(args):
             if rng.chance(2, 3):
                 path = gen_probe_sharing_prefix(rng)
             cnt("sessions_with_accepted_requests_before_the_probe")
-        ctl_out_calls, ctl_reps, ctl_tree = ctls[nw]
+        ctl_out_calls, ctl_reps, ctl_tree, ctl_dirs = ctls[nw]
         rootspell = None
         if not exhaustive and idx % 7 == 3:
             # an absolute path that spells the served directory itself (joined to the root it comes out "inside")
@@ -1473,6 +1474,10 @@ def _c11_worker(args):
                 tree = walk_root(root)
                 if tree != ctl_tree:
                     res["viol"].append(("C11|%s|refused-request-changed-the-tree" % kind, dict(label, diff=sorted(set(tree.items()) ^ set(ctl_tree.items()))[:4])))
+                # "nothing is created for it": not a directory either (List never shows an empty one)
+                dirs = tree_dirs(root)
+                if dirs != ctl_dirs:
+                    res["viol"].append(("C11|%s|refused-request-created-or-removed-a-directory" % kind, dict(label, diff=sorted(dirs ^ ctl_dirs)[:4])))
                 # following requests get the replies they would have got without the refused one
                 got_tail = [strip(x) for x in reps[2 + nw:]]
                 want_tail = [strip(x) for x in ctl_reps[1 + nw:]]
